@@ -70,6 +70,18 @@ CHECKS = {
          "DESIGN.md 4/C14",
          "Every regex of <= 3 nodes (and 4 nodes on texts <= 2; thorough: 4 on all texts) over the documented subset incl. named/numbered groups, lazy forms of every quantifier, back-references, plus a reduced grammar to 4-5 nodes, on every text over {a,b,1,' ',\\n} up to length 3-4: spans and group bindings of `find all @/re/` must equal those of the reference matcher R applied to an independent parse of the regex; on every back-reference-free case R itself must agree with Go's regexp (about 3 million agreeing cases per quick run), otherwise the run ends with ORACLE-DISAGREEMENT (exit 2).",
          "Go regexp trusted as a conventional backtracking engine on the subset; texts exclude \\r \\f \\v."),
+ "C17": ("exploration", "bounded-exhaustive enumeration of result lists (programs x texts with quotes, backslashes, control and non-UTF-8 bytes) decoded with encoding/json",
+         "DESIGN.md 4/C17",
+         "24 programs (find/replace, flat and nested variables, zero matches, windows, two commands) x every text of <= 4 symbols over {a, quote, backslash, newline, 0x01, a 2-byte rune, 0xff, tab}: Json() and FormattedJson() return, are valid JSON, decode to equal documents, one object per match with every field equal to the in-memory match (exactly for valid UTF-8, after per-byte U+FFFD substitution otherwise), replacement key present exactly for replace commands.",
+         "encoding/json trusted as arbiter."),
+ "C18": ("model_checking", "exhaustive execution of the CLI's finite configuration space (full cross product) on the binary built from the current tree, against the library on a twin directory",
+         "DESIGN.md 4/C18",
+         "All 3840 configurations {-com,-src} x 4 programs x 3 file sets x 4 stdout modes x -json-file x -formatted-json-file x 5 replace modes x -no-output run on the real binary in fresh directories: exit status; stdout/JSON files are exactly one JSON document equal field by field to the library result on a twin directory; directory post-state equals the twin's (mode honoured, NEW default); invalid combinations / unknown mode / compile error exit non-zero with a message and change nothing.",
+         "With -no-output or zero matches the content of JSON outputs is not fixed by the documentation and is not compared."),
+ "C20": ("exploration", "exhaustive enumeration of patterns x names on real directories against a reference glob matcher",
+         "DESIGN.md 4/C20",
+         "A real directory with a file for every name of <= 3 chars over {a,b,.} x every pattern of <= 4 chars over {a,b,.,*} with <= 3 stars (thorough: 4 / 5), and a real depth-3 tree x every 1-3 segment pattern over 10 directory and 12 file segments, relative and absolute: the returned list equals, as a set, the files whose path matches segment by segment; no duplicates, no directories.",
+         "Star-only directory segments and ./.. excluded as in the property."),
 }
 
 PENDING_REASON = "check not built yet in this round of work (framework is being extended property by property; see DESIGN.md section 7)"
